@@ -4,6 +4,7 @@ package main
 
 import (
 	"fmt"
+	"os"
 	"sync"
 	"go/types"
 	"sort"
@@ -276,6 +277,9 @@ func (ex *Exec) branch(c *Term) bool {
 	}
 	if rt == "unknown" || rf == "unknown" {
 		ex.out.nUnknown++
+		if os.Getenv("SYMGO_DEBUG_UNKNOWN") != "" {
+			fmt.Fprintf(os.Stderr, "UNKNOWN branch at %s: %s\n", ex.curPos, c.body())
+		}
 	}
 	tOK := rt != "unsat"
 	fOK := rf != "unsat"
@@ -464,6 +468,7 @@ func (ex *Exec) assertProp(c *Term, label string) {
 			ex.violation("assert", label, "assertion is constant false on a feasible path", tape)
 		} else {
 			ex.out.nUnknown++
+			ex.out.detail = "assertion " + label + " is constant false on a path whose condition the solver could not satisfy in time"
 		}
 		panic(&pathEnd{reason: "done", detail: "assertion failed"})
 	}
